@@ -374,24 +374,38 @@ def tryB (runF : RunF) (b : Beh) (s : Vm) : Res :=
   | .stuck => (.stuck, r.2)
   | o => unwindAtMarker runF o r.2
 
-/-- func.go:397 __call -/
-def goCall (runF : RunF) (n : Nat) (f : FnInfo) (b : Beh) (s : Vm) : Res :=
-  let s1 := pushTryFrame tryPanicMarker (-1) { s with sp := s.sp + 2 + n }
+/-- the run loop under a boundary marker: `runTry` (vm.go) / the `for { runTryInner }` loop of `__call`; the loop
+looks at the interrupt flag before its first instruction -/
+def runTryB (runF : RunF) (b : Beh) (s : Vm) : Res :=
+  if s.interrupted then unwindAtMarker runF .fatal (pushTryFrame tryPanicMarker (-1) s)
+  else tryB runF b s
+
+/-- func.go `__call`, after the marker was pushed (state `s1`): save the caller's context (two shapes) and
+set the callee's registers; `none` = StackOverflowError from pushCtx -/
+def goCallEnter (n : Nat) (f : FnInfo) (s1 : Vm) : Option (Vm × Bool) :=
   let pushed : Option (Vm × Bool) :=
     if s1.prg.isSome then
       (pushCtx s1).map fun t => ({ t with callStack := t.callStack ++ [⟨none, [], none, 0, 0, -2, 0, 0⟩] }, true)
     else (pushCtx { s1 with pc := -2 }).map fun t => (t, false)
-  match pushed with
+  pushed.map fun (s2, needPop) =>
+    ({ s2 with args := n, prg := some f.prg, stash := f.stash, privEnv := f.privEnv,
+               newTarget := 0, pc := 0, sb := s2.sp - n - 1 }, needPop)
+
+/-- `ret` of the callee, `if needPop { popCtx }`, `vm.pop()`, deferred popTryFrame -/
+def goCallRet (needPop : Bool) (s4 : Vm) : Vm :=
+  let s5 := popCtx { s4 with sp := s4.sb }
+  let s6 := if needPop then popCtx s5 else s5
+  popTryFrame { s6 with sp := s6.sp - 1 }
+
+/-- func.go `__call` -/
+def goCall (runF : RunF) (n : Nat) (f : FnInfo) (b : Beh) (s : Vm) : Res :=
+  let s1 := pushTryFrame tryPanicMarker (-1) { s with sp := s.sp + 2 + n }
+  match goCallEnter n f s1 with
   | none => (.fatal, popTryFrame s1)     -- StackOverflowError raised outside runTryInner: only the deferred pop runs
-  | some (s2, needPop) =>
-    let s3 : Vm := { s2 with args := n, prg := some f.prg, stash := f.stash, privEnv := f.privEnv,
-                             newTarget := 0, pc := 0, sb := s2.sp - n - 1 }
+  | some (s3, needPop) =>
     let r := if s3.interrupted then (Outcome.fatal, s3) else runF b s3
     match r.1 with
-    | .normal =>
-      let s5 := popCtx { r.2 with sp := r.2.sb }
-      let s6 := if needPop then popCtx s5 else s5
-      (.normal, popTryFrame { s6 with sp := s6.sp - 1 })
+    | .normal => (.normal, goCallRet needPop r.2)
     | .stuck => (.stuck, r.2)
     | o => unwindAtMarker runF o r.2
 
@@ -419,60 +433,60 @@ def leaveLoop (runF : RunF) : Nat → Vm → Res
 def leaveAbrupt (s : Vm) : Vm :=
   { s with jobQueue := [], interrupted := false, prg := none, sb := -1 }
 
-/-- runtime.go:2504 -/
+/-- the tail of runWrapped after a normal / thrown `vm.try`: `leave()` at depth 0 (a job that ends with an
+uncatchable reaches the deferred recover: leaveAbrupt), else clearStack -/
+def leaveOrClear (runF : RunF) (lf : Nat) (o : Outcome) (s1 : Vm) : Res :=
+  if s1.callStack.length = 0 then
+    let l := leaveLoop runF lf s1
+    match l.1 with
+    | .normal => (o, l.2)
+    | .stuck => (.stuck, l.2)
+    | o2 => (o2, leaveAbrupt l.2)
+  else (o, s1)
+
+/-- runtime.go runWrapped -/
 def runWrapped (runF : RunF) (lf : Nat) (b : Beh) (s : Vm) : Res :=
   let r := tryB runF b s
   match r.1 with
-  | .normal | .thrown =>
-    if r.2.callStack.length = 0 then
-      let l := leaveLoop runF lf r.2
-      match l.1 with
-      | .normal => (r.1, l.2)
-      | .stuck => (.stuck, l.2)
-      | o => (o, leaveAbrupt l.2)       -- a job panicked with an uncatchable: deferred recover
-    else r
+  | .normal | .thrown => leaveOrClear runF lf r.1 r.2
   | .stuck => r
   | o => (o, if r.2.callStack.length = 0 then leaveAbrupt r.2 else r.2)
 
-/-- runtime.go:1434, `recursive` branch -/
+/-- RunProgram, `recursive` branch: registers of the nested global code -/
+def recEnter (p : Nat) (s1 : Vm) : Vm :=
+  { s1 with stash := globalStash, privEnv := none, newTarget := 0, args := 0,
+            sb := s1.sp + 1, sp := s1.sp + 2, prg := some p, pc := 0, result := 0 }
+
+/-- deferred: `vm.sp -= 2; vm.popCtx()` (only when the context was pushed, fix 195a32b) -/
+def recExit (t : Vm) : Vm := popCtx { t with sp := t.sp - 2 }
+
+/-- runtime.go RunProgram, `recursive` branch -/
 def runProgramRec (runF : RunF) (p : Nat) (b : Beh) (s : Vm) : Res :=
   match pushCtx s with
-  | none => (.fatal, s)     -- pushCtx panics before `pushed = true`: the deferred function pops nothing (fix 195a32b)
+  | none => (.fatal, s)     -- pushCtx panics before `pushed = true`: the deferred function pops nothing
   | some s1 =>
-    let s2 : Vm := { s1 with stash := globalStash, privEnv := none, newTarget := 0, args := 0,
-                             sb := s1.sp + 1, sp := s1.sp + 2, prg := some p, pc := 0, result := 0 }
-    let r := if s2.interrupted then (Outcome.fatal, pushTryFrame tryPanicMarker (-1) s2)
-             else runF b (pushTryFrame tryPanicMarker (-1) s2)          -- runTry
-    let r' : Res := match r.1 with
-      | .normal => (.normal, popTryFrame r.2)
-      | .stuck => (.stuck, r.2)
-      | o => unwindAtMarker runF o r.2
-    -- deferred: vm.sp -= 2; vm.popCtx()
-    (r'.1, popCtx { r'.2 with sp := r'.2.sp - 2 })
+    let r := runTryB runF b (recEnter p s1)
+    (r.1, recExit r.2)
 
-/-- runtime.go:1434, outermost branch (len(callStack) = 0) -/
+def outerEnter (p : Nat) (s : Vm) : Vm :=
+  { s with callStack := s.callStack ++ [⟨none, [], none, 0, 0, 0, 0, 0⟩], prg := some p, pc := 0, result := 0 }
+
+def outerPop (t : Vm) : Vm := { t with callStack := t.callStack.dropLast }
+
+/-- runtime.go RunProgram, outermost branch (len(callStack) = 0) -/
 def runProgramOuter (runF : RunF) (lf : Nat) (p : Nat) (b : Beh) (s : Vm) : Res :=
-  let s1 : Vm := { s with callStack := s.callStack ++ [⟨none, [], none, 0, 0, 0, 0, 0⟩],
-                          prg := some p, pc := 0, result := 0 }
-  let r := if s1.interrupted then (Outcome.fatal, pushTryFrame tryPanicMarker (-1) s1)
-           else runF b (pushTryFrame tryPanicMarker (-1) s1)
-  let r' : Res := match r.1 with
-    | .normal => (.normal, popTryFrame r.2)
-    | .stuck => (.stuck, r.2)
-    | o => unwindAtMarker runF o r.2
+  let r' := runTryB runF b (outerEnter p s)
   match r'.1 with
   | .normal | .thrown =>
     -- vm.prg = nil; vm.sb = -1; r.leave(); deferred: callStack = callStack[:len-1]
-    let s3 : Vm := { r'.2 with prg := none, sb := -1 }
-    let l := leaveLoop runF lf s3
-    let pop (t : Vm) : Vm := { t with callStack := t.callStack.dropLast }
+    let l := leaveLoop runF lf { r'.2 with prg := none, sb := -1 }
     (match l.1 with
-     | .normal => (r'.1, pop l.2)
+     | .normal => (r'.1, outerPop l.2)
      | .stuck => (.stuck, l.2)
-     | o => let t := pop l.2; (o, if t.callStack.length = 0 then leaveAbrupt t else t))
+     | o => let t := outerPop l.2; (o, if t.callStack.length = 0 then leaveAbrupt t else t))
   | .stuck => r'
   | o =>
-    let t : Vm := { r'.2 with callStack := r'.2.callStack.dropLast }
+    let t := outerPop r'.2
     (o, if t.callStack.length = 0 then leaveAbrupt t else t)
 
 /-! ### one layer of the interpreter -/
